@@ -1,5 +1,7 @@
 mod case;
+mod corrupt;
 mod crash;
+mod fault;
 mod fsck;
 mod gen;
 mod known;
@@ -46,6 +48,8 @@ fn plan(prop: &str, tier: &str) -> (&'static str, u64) {
         "C08" => ("seq", if thorough { 120_000 } else { 6_000 }),
         "C03" => ("seq", if thorough { 150_000 } else { 8_000 }),
         "C02" => ("crash", if thorough { 20_000 } else { 1_200 }),
+        "C11" => ("fault", if thorough { 6_000 } else { 320 }),
+        "C12" => ("corrupt", if thorough { 4_000 } else { 480 }),
         _ => ("none", 0),
     }
 }
@@ -347,6 +351,10 @@ fn cmd_check(prop: &str, tier: &str) -> i32 {
             if !o.is_empty() {
                 let mut pinned = small.clone();
                 pinned.extra = verdict.extra_out.clone();
+                if !verdict.issued.is_empty() {
+                    // the searching engine may have extended the history (aftermath steps)
+                    pinned.steps = Some(verdict.issued.clone());
+                }
                 let v2 = props::execute(&pinned);
                 if v2.violation.is_some() {
                     small = pinned;
